@@ -1,13 +1,200 @@
-"""C06 -- placeholder until the check is built"""
+"""C06 -- a planted master curve is recovered end to end through the CLI"""
+
+import os
+import sqlite3
+import subprocess
+import sys
+
+from .. import core, data, gen_planted, oracle_curves
+
 PROPERTY = 'C06'
 LEVEL = 'exploration'
-SHARDS = {'quick': 1, 'thorough': 1}
-RULE = 'not built yet'
+SHARDS = {'quick': 4, 'thorough': 16}
+RULE = (
+    'G-planted records (recession truth R piecewise linear on the sampling lattice, constant specific yield Sy; '
+    '4-25 events of 1-4 heavy steps + light tail landing on a lattice level; steps 900/1200/1800/3600 s; grid steps '
+    '0.1-2.5 mm; 0-2 gaps; four time origins) are written to text files and taken through load -> classify -> '
+    'set-zeta-grid -> rise -> recession by spowtd.user_interface.main (a sample through bin/spowtd subprocesses). '
+    'Monitors: exit status of every step; curve walker with the planted truth: offset + crossing - R^-1(level) and '
+    'offset + crossing - Sy*level must each be constant over all (interval, level) rows (1e-5 s / 1e-9*scale mm), '
+    'which implies that aligned pieces coincide at common levels and the master curve equals the truth up to the '
+    'origin.  Non-trivial: >= 3 recession pieces and >= 3 rises in the assembled curves with >= 2 distinct slopes of '
+    'R inside the recovered range; distinct by (dataset digest, grid step).'
+)
+ASSUMPTIONS = [
+    'the generator only emits event sequences consistent with the truth (heavy steps above both thresholds, tail below)',
+    'smallest effect of a wrong sample, step or level is one time step (>= 900 s) or one grid cell, far above the tolerances',
+]
+SIZES = {'quick': dict(n=72, sub=2), 'thorough': dict(n=4000, sub=32)}
+REQUIRED = {
+    tier: {
+        'workflows-completed': 30,
+        'recession-curves-compared-with-truth': 30,
+        'rise-curves-compared-with-truth': 30,
+        'workflows-with-gaps': 5,
+        'workflows-via-subprocess': 1,
+    }
+    for tier in ('quick', 'thorough')
+}
+MIN_NONTRIVIAL = {'quick': 20, 'thorough': 500}
+
+
+def truth_for(case, level_mm):
+    for tr in case['truth']:
+        if tr['R'][-1] - 1e-9 <= level_mm <= tr['R'][0] + 1e-9:
+            return tr
+    return None
+
+
+def evaluate(connection, case):
+    """Spread of (stored curve - truth) over all rows; returns dict"""
+    gs = case['grid_step']
+    step = case['step']
+    out = {}
+    rows = connection.execute(
+        """SELECT zeta_number, time_offset_s + mean_crossing_time, start_epoch
+           FROM recession_interval JOIN recession_interval_zeta USING (start_epoch)""").fetchall()
+    if rows:
+        dd = []
+        slopes = set()
+        for zn, t, _ in rows:
+            tr = truth_for(case, zn * gs)
+            if tr is None:
+                out['rec_level_outside_truth'] = zn * gs
+                continue
+            rinv = gen_planted.r_inverse(tr, step)
+            dd.append(t - rinv(zn * gs))
+            R = tr['R']
+            k = int(rinv(zn * gs) // step)
+            if 0 <= k < len(R) - 1:
+                slopes.add(R[k] - R[k + 1])
+        if dd:
+            out['rec_spread'] = max(dd) - min(dd)
+        out['rec_n'] = len({s for *_, s in rows})
+        out['rec_levels'] = len({zn for zn, *_ in rows})
+        out['rec_slopes'] = len(slopes)
+    rows = connection.execute(
+        """SELECT zeta_number, rain_depth_offset_mm + mean_crossing_depth_mm, start_epoch
+           FROM rising_interval JOIN rising_interval_zeta USING (start_epoch)""").fetchall()
+    if rows:
+        sy = case['truth'][0]['sy']
+        dd = [w - sy * zn * gs for zn, w, _ in rows]
+        out['rise_spread'] = max(dd) - min(dd)
+        out['rise_scale'] = max(1.0, max(abs(sy * zn * gs) for zn, _, _ in rows))
+        out['rise_n'] = len({s for *_, s in rows})
+    # master-curve views against the truth as well
+    view = connection.execute('SELECT zeta_mm, elapsed_time_s FROM average_recession_time ORDER BY zeta_mm').fetchall()
+    if view:
+        dd = []
+        for z, t in view:
+            tr = truth_for(case, z)
+            if tr is not None:
+                dd.append(t - gen_planted.r_inverse(tr, step)(z))
+        if dd:
+            out['rec_view_spread'] = max(dd) - min(dd)
+    view = connection.execute('SELECT zeta_mm, mean_crossing_depth_mm FROM average_rising_depth ORDER BY zeta_mm').fetchall()
+    if view:
+        sy = case['truth'][0]['sy']
+        dd = [w - sy * z for z, w in view]
+        out['rise_view_spread'] = max(dd) - min(dd)
+    return out
+
+
+def run_workflow(ctx, case, via, index):
+    """Returns (db path, list of (step, status, exception description))"""
+    paths = data.write_case_files(case, ctx.workdir, 'p{}'.format(index))
+    db = os.path.join(ctx.workdir, 'p{}.sqlite3'.format(index))
+    for f in (db, db + '-journal'):
+        if os.path.exists(f):
+            os.remove(f)
+    steps = [
+        ['load', db, '-p', paths[0], '-e', paths[1], '-z', paths[2], '--timezone', case.get('tz', 'UTC')],
+        ['classify', db, '-s', repr(float(case['sthr'])), '-j', repr(float(case['jthr']))],
+        ['set-zeta-grid', db, '-d', repr(float(case['grid_step']))],
+        ['rise', db],
+        ['recession', db],
+    ]
+    log = []
+    for argv in steps:
+        if via == 'subprocess':
+            env = dict(os.environ)
+            env['PYTHONPATH'] = core.REPO
+            p = subprocess.run([sys.executable, '-B', os.path.join(core.REPO, 'bin', 'spowtd')] + argv,
+                               env=env, capture_output=True, text=True, timeout=600)
+            last = p.stderr.strip().splitlines()[-1] if p.stderr.strip() else ''
+            log.append((argv[0], p.returncode, None if p.returncode == 0 else {'type': last.split(':')[0][:60], 'message': last[:300], 'site': None, 'origin': 'spowtd'}))
+        else:
+            status, exc = data.cli(argv)
+            log.append((argv[0], status, core.describe_exception(exc) if exc else None))
+        if log[-1][1] != 0:
+            break
+    return db, log
+
+
+def check_case(ctx, case, via='cli', index=0):
+    rec = ctx.rec
+    rec.case()
+    db, log = run_workflow(ctx, case, via, index)
+    rec.hit('workflows-via-' + via)
+    failed = [entry for entry in log if entry[1] != 0]
+    if failed:
+        name, status, desc = failed[0]
+        if desc and desc.get('origin') == 'harness':
+            rec.inconclusive_because('harness exception in step {}: {}'.format(name, desc))
+            return
+        if name in ('rise', 'recession') and os.path.exists(db):
+            # domain of the property: the pieces must overlap (a main body of
+            # at least two intervals); decided by the walker's own union-find
+            connection = sqlite3.connect(db)
+            try:
+                comps, _ = oracle_curves.main_body(connection, name, case['grid_step'])
+            finally:
+                connection.close()
+            if not comps or len(comps[0][1]) < 2 or (len(comps) > 1 and comps[1][0] == comps[0][0]):
+                rec.hit('precondition-not-met: {} pieces have no unique main body of 2+ pieces'.format(name))
+                return
+        key = 'step-{}-fails:{}'.format(name, (desc or {}).get('type'))
+        rec.violation(key, {'step': name, 'status': status, 'exception': desc}, case, 'planted')
+        return
+    rec.hit('workflows-completed')
+    if case.get('dropped'):
+        rec.hit('workflows-with-gaps')
+    connection = sqlite3.connect(db)
+    try:
+        o = evaluate(connection, case)
+    finally:
+        connection.close()
+        for f in (db,):
+            if os.path.exists(f):
+                os.remove(f)
+    if 'rec_level_outside_truth' in o:
+        rec.violation('recession-level-outside-the-planted-range', o, case, 'planted')
+    if 'rec_spread' in o:
+        rec.hit('recession-curves-compared-with-truth')
+        rec.note_max('worst recession spread, s', o['rec_spread'])
+        if o['rec_spread'] > 1e-5 or o.get('rec_view_spread', 0) > 1e-5:
+            rec.violation('recession-curve-differs-from-the-planted-truth', o, case, 'planted')
+    if 'rise_spread' in o:
+        rec.hit('rise-curves-compared-with-truth')
+        rec.note_max('worst rise spread / scale', o['rise_spread'] / o['rise_scale'])
+        if o['rise_spread'] > 1e-9 * o['rise_scale'] or o.get('rise_view_spread', 0) > 1e-9 * o['rise_scale']:
+            rec.violation('rise-curve-differs-from-the-planted-truth', o, case, 'planted')
+    if o.get('rec_n', 0) >= 3 and o.get('rise_n', 0) >= 3 and o.get('rec_slopes', 0) >= 2:
+        rec.mark_nontrivial(core.digest((case['rain'], case['z'], case['grid_step'], case['sthr'], case['jthr'])))
+        rec.sample({'step_s': case['step'], 'grid_step_mm': case['grid_step'], 'sy': case['truth'][0]['sy'],
+                    'sthr': case['sthr'], 'jthr': case['jthr'], 'n_steps': len(case['rain']), 'events': case['n_events'],
+                    'gaps_at': case['dropped'][:6], 'R_first': case['truth'][0]['R'][:6], 'observed': o})
 
 
 def run(ctx):
-    ctx.rec.inconclusive_because('check not built yet')
+    s = SIZES[ctx.tier]
+    rng = ctx.rng('planted')
+    n = ctx.share(s['n'])
+    nsub = ctx.share(s['sub'])
+    for i in range(n):
+        case = gen_planted.gen(rng, gaps=[0, 0, 1, 2][i % 4])
+        check_case(ctx, case, 'subprocess' if i < nsub else 'cli', i)
 
 
 def replay(ctx, case, module=None):
-    ctx.rec.inconclusive_because('check not built yet')
+    check_case(ctx, case, 'cli', 0)
